@@ -805,6 +805,10 @@ impl<'a> GeneratorState<'a> {
             _ => { 
                 // Each byte of the operand is complemented: the high byte as well when it's the one asked for
                 let left = self.generate_expr(expr, pos, high_byte, high_byte)?;
+                // A constant operand (`~(1 + 2)`) is complemented as the literal above is
+                if let ExprType::Immediate(v) = left {
+                    return Ok(ExprType::Immediate(!v));
+                }
                 let right = ExprType::Immediate(0xffff);
                 self.generate_arithm(&left, &Operation::Xor(false), &right, pos, high_byte)
             },
